@@ -118,6 +118,37 @@ pub fn os_threads() -> usize {
     std::fs::read_dir("/proc/self/task").map(|d| d.count()).unwrap_or(0)
 }
 static IDLE_THREADS: AtomicUsize = AtomicUsize::new(0);
+fn task_ids() -> std::collections::BTreeSet<u64> {
+    std::fs::read_dir("/proc/self/task")
+        .map(|d| d.filter_map(|e| e.ok()?.file_name().to_str()?.parse().ok()).collect())
+        .unwrap_or_default()
+}
+/// Wait (bounded) until the threads `tids` sleep.  A manager's collector
+/// thread that has not yet reached its condition variable misses the quit
+/// notification (oxidd-manager-index `new_manager`: `wait()` without a check
+/// of the signal state; `oxc capi-race` shows it): such a manager never
+/// terminates although all references were released.  This is not a matter
+/// of the C interface, so the driver lets the threads settle first.
+pub fn settle(tids: &std::collections::BTreeSet<u64>, ms: u64) {
+    let t0 = std::time::Instant::now();
+    let sleeping = |tid: u64| -> bool {
+        let Ok(st) = std::fs::read_to_string(format!("/proc/self/task/{tid}/stat")) else { return true };
+        // pid (comm) state ...
+        st.rsplit(')').next().and_then(|r| r.trim_start().chars().next()) == Some('S')
+    };
+    let mut streak = 0;
+    while (t0.elapsed().as_millis() as u64) < ms {
+        if tids.iter().all(|&t| sleeping(t)) {
+            streak += 1;
+            if streak >= 3 {
+                return;
+            }
+        } else {
+            streak = 0;
+        }
+        std::thread::sleep(std::time::Duration::from_micros(200));
+    }
+}
 fn wait_threads(target: usize, ms: u64) -> usize {
     let t0 = std::time::Instant::now();
     loop {
@@ -186,10 +217,15 @@ impl<'t, F: CKind> CSession<'t, F> {
             let now = wait_threads(idle, 3000);
             IDLE_THREADS.store(now, Ordering::Relaxed);
         }
+        let before_rm = task_ids();
         let rm = F::new_manager(cap, cache, threads);
+        settle(&task_ids().difference(&before_rm).copied().collect(), 2000);
         let base = os_threads();
+        let before = task_ids();
         let m = unsafe { (api.manager_new)(cap, cache, threads) };
         let now = os_threads();
+        let new_tids: std::collections::BTreeSet<u64> = task_ids().difference(&before).copied().collect();
+        settle(&new_tids, 2000);
         let mut ev = json!({"ev":"reset","kind":F::KIND,"cap":cap,"cache":cache,"thr":threads,
             "backend": if cfg!(feature="ptr") {"ptr"} else {"idx"}, "capi": true,
             "thr_base": base, "thr_now": now, "minvalid": m.p.is_null()});
